@@ -294,6 +294,14 @@ func (m *Model) genSel(t *rapid.T, typeName string, depth int, under bool) []*No
 					}
 					nd.HasSub = true
 					nd.Sub = m.genSel(t, named.Name, depth-1, under || isList || k == "UNION")
+					if k == "OBJECT" && rapid.IntRange(0, 3).Draw(t, "again") == 0 {
+						// the same response key once more, this time selecting through a fragment:
+						// the answer has the fields of both occurrences
+						again := *nd
+						again.Sub = []*Node{{Kind: "inline", On: named.Name, Sub: m.genSel(t, named.Name, depth-1, under || isList), underUnionOrList: under || isList}}
+						out = append(out, nd)
+						nd = &again
+					}
 				}
 				out = append(out, nd)
 			}
@@ -343,13 +351,24 @@ func text(ns []*Node) string { var b strings.Builder; printNodes(&b, ns); return
 
 type confStats struct{ null, empty, union bool }
 
+// mergeKey records a selected field under its response key; a key selected several times
+// (same field, same arguments) selects the union of the sub-selections.
+func mergeKey(out map[string]*Node, n *Node) {
+	prev, ok := out[n.Key]
+	if !ok {
+		out[n.Key] = n
+		return
+	}
+	merged := *prev
+	merged.Sub = append(append([]*Node{}, prev.Sub...), n.Sub...)
+	out[n.Key] = &merged
+}
+
 func (m *Model) collectKeys(typeName string, ns []*Node, out map[string]*Node) {
 	for _, n := range ns {
 		switch n.Kind {
 		case "field":
-			if _, ok := out[n.Key]; !ok {
-				out[n.Key] = n
-			}
+			mergeKey(out, n)
 		case "inline":
 			if n.On == typeName {
 				m.collectKeys(typeName, n.Sub, out)
@@ -463,9 +482,7 @@ func (m *Model) conformObject(obj map[string]interface{}, concrete, declared str
 	// under a union, top-level fields (__typename) apply to every member; fragments by member
 	for _, n := range sel {
 		if n.Kind == "field" {
-			if _, ok := want[n.Key]; !ok {
-				want[n.Key] = n
-			}
+			mergeKey(want, n)
 		} else if n.On == concrete {
 			m.collectKeys(concrete, n.Sub, want)
 		}
